@@ -329,7 +329,14 @@ func findIDInQueue[M interface{ ID() EventID }](q *queue[M], id EventID, autoID 
 	}
 
 	if autoID {
-		id, err := strconv.ParseUint(id.String(), 10, 64)
+		s := id.String()
+		if len(s) > 1 && s[0] == '0' {
+			// Generated IDs are never written with leading zeros, so this ID was never
+			// issued, even though ParseUint would accept it (e.g. "010" as 10).
+			return -1
+		}
+
+		id, err := strconv.ParseUint(s, 10, 64)
 		if err != nil {
 			return -1
 		}
